@@ -73,6 +73,59 @@ def dispatch(sx: SX, model, left, op, right):
     return r
 
 
+_ARITH_DUNDERS = {f'__{p}{o}__' for o in ('add', 'sub', 'mul', 'truediv', 'floordiv', 'mod', 'pow', 'matmul') for p in ('', 'r', 'i')} | \
+    {'__neg__', '__pos__', '__abs__'}
+
+
+def check_operands(model, rep, R='C06.operands'):
+    """an operation returns its result and leaves both operands as they were: quantities are handed out by reference
+    (`motor.inertia_moment` is the motor's own object), so an operator - in particular an in-place one picked up by
+    `x += y` / `x *= k` - that writes into `self` or `other` changes every holder of that object"""
+    import ast
+    kinds = sorted(set(model.quantity_kinds()) | {'UnitBase'})
+    for k in kinds:
+        ci = model.classes.get(k)
+        if ci is None:
+            continue
+        bad = []
+        n = 0
+        for m in ci.all_members():
+            if m.name not in _ARITH_DUNDERS:
+                continue
+            n += 1
+            params = {a.arg for a in m.node.args.args}
+
+            def root(e):
+                while isinstance(e, (ast.Attribute, ast.Subscript)):
+                    e = e.value
+                return e.id if isinstance(e, ast.Name) else None
+            for x in ast.walk(m.node):
+                tg = []
+                if isinstance(x, ast.Assign):
+                    tg = x.targets
+                elif isinstance(x, (ast.AugAssign, ast.AnnAssign)):
+                    tg = [x.target]
+                elif isinstance(x, ast.Delete):
+                    tg = x.targets
+                for t in tg:
+                    for e in (t.elts if isinstance(t, (ast.Tuple, ast.List)) else [t]):
+                        if isinstance(e, (ast.Attribute, ast.Subscript)) and root(e) in params:
+                            bad.append((x.lineno, m.name, f'writes `{ast.unparse(e)[:40]}`'))
+                if isinstance(x, ast.Call):
+                    if isinstance(x.func, ast.Name) and x.func.id in ('setattr', 'delattr') and x.args and root(x.args[0]) in params:
+                        bad.append((x.lineno, m.name, f'`{ast.unparse(x)[:50]}`'))
+                    if isinstance(x.func, ast.Attribute) and root(x.func.value) in params and any(
+                            kw.arg == 'inplace' and not (isinstance(kw.value, ast.Constant) and kw.value.value is False) for kw in x.keywords):
+                        bad.append((x.lineno, m.name, f'converts an operand in place: `{ast.unparse(x)[:50]}`'))
+        if bad:
+            for ln, name, what in bad[:3]:
+                rep.violation(R, f'{k}.{name}', f'the operator {what}: the operand object is shared with whoever handed it out (an element\'s '
+                              f'own field, a recorded sample), so the operation changes state it does not own', f'{ci.module}:{ln}')
+        else:
+            rep.holds(R, f'{k}', f'{n} operator method(s), none writes into an operand')
+    rep.require(R, 14, 'UnitBase and the 13 kinds')
+
+
 def check(model, rep):
     rep.explain('C06: exhaustive static dispatch model over every (left, op, right) triple of the quantity kinds '
                 'found in gearpy/units plus plain numbers; each operator body is evaluated with symbolic SI '
@@ -171,6 +224,7 @@ def check(model, rep):
             rep.decide(t in accepted, 'C06.required', ' '.join(t), 'listed operation is not accepted')
     # conversions the operators rely on (other.to(self.unit), self.to('Nm'), private copies of sub-kinds):
     # the SI magnitude of an operation is right "whatever units the operands use" only if these hold too
+    check_operands(model, rep)
     from checks.c05 import check_tables, check_to, check_mirror
     check_tables(model, rep, sx.tables, R='C06.conv.table')
     check_to(model, rep, sx, sx.tables, R='C06.conv.to')
